@@ -61,6 +61,17 @@ contract(
         "missing -> FileNotFoundError; corrupt objects (ObjectFormatError) excluded by WF",
 )
 
+contract(
+    "ext:dvc_objects.obj.Object.__bool__",
+    params=dict(self=Tree),
+    returns=TBool,
+    ensures=lambda c: c.result == And(c.h.get("Tree.oid", c.self).is_some, c.h.get("Tree.oid", c.self).val.length() > 0),
+    assumed=True,
+    pure=True,
+    doc="truth value of an object = bool(self.oid) (dvc_objects.obj.Object.__bool__; it takes precedence over Tree.__len__: "
+        "a loaded EMPTY directory object is truthy)",
+)
+
 # ---------------- _add ----------------
 contract(
     f"{M}:_add",
@@ -98,8 +109,6 @@ def _pre(c):
         # directory listings list files only
         all_h(lambda d: all_h2(lambda e: Implies(tree_hids(d).contains(e), Not(isdir_hi(e))))),
         closed(dest_objs),
-        # requested directories are not empty (an empty Tree is falsy and trips `assert dir_obj`: see DESIGN, F-C04b)
-        all_h(lambda d: Implies(And(c.obj_ids.contains(d), isdir_hi(d)), Not(tree_hids(d) == EMPTY))),
     )
 
 
